@@ -77,6 +77,10 @@ func classifyBase(v ssa.Value, fn *ssa.Function) int {
 			if callee := x.Call.StaticCallee(); callee != nil && inRepoFn(callee) && returnsFresh(callee, map[*ssa.Function]bool{}) {
 				return baseFresh
 			}
+			// the single result of a function outside the repository whose assumed contract declares it fresh
+			if freshExternalResult != nil && freshExternalResult(x) {
+				return baseFresh
+			}
 			return baseUnknown
 		}
 		return baseUnknown
@@ -201,10 +205,35 @@ type frameBuilder struct {
 	impls map[string][]*ssa.Function // method name -> in-repo methods
 }
 
+// freshExternalResult: set by computeFrames; says whether an external call's (single) result is declared fresh by
+// the callee's assumed contract (`ensures ... fresh(result-name) ...` outside an implication's left side).
+var freshExternalResult func(c *ssa.Call) bool
+
 func computeFrames(P *Program, S *SpecSet) *FrameInfo {
 	info := &FrameInfo{mods: map[*ssa.Function]map[string]bool{}, restores: map[*ssa.Function]map[string]bool{}, locs: map[*ssa.Function]map[string]*locSet{}, reads: map[*ssa.Function]map[string]bool{}, impure: map[*ssa.Function]bool{}}
 	ng := &Gen{P: P, S: S, heapSort: map[string]string{}, decl: map[string]string{}, globals: map[string]bool{}, typeIDs: map[string]int{}, strLits: map[string]string{}, cur: map[string]string{}, allMods: map[string]bool{}, blockMod: map[int]map[string]bool{}, oblSeen: map[string]int{}}
 	ng.curBlk = -1
+	freshExternalResult = func(x *ssa.Call) bool {
+		callee := x.Call.StaticCallee()
+		if callee == nil || inRepoFn(callee) || callee.Signature.Results().Len() != 1 {
+			return false
+		}
+		ctr := ng.contractFor(ng.resolveCallee(&x.Call))
+		if ctr == nil || !ctr.Assumed || len(ctr.Results) != 1 {
+			return false
+		}
+		for _, cl := range ctr.Clauses {
+			if cl.Kind != "ensures" {
+				continue
+			}
+			for _, cj := range conjuncts(cl.E) {
+				if cj.Op == "call" && cj.Name == "fresh" && len(cj.Args) == 1 && cj.Args[0].Op == "id" && cj.Args[0].Name == ctr.Results[0] {
+					return true
+				}
+			}
+		}
+		return false
+	}
 	fb := &frameBuilder{P: P, S: S, ng: ng, info: info, calls: map[*ssa.Function][]*ssa.Function{}, recs: map[*ssa.Function][]callRec{}, static: map[*ssa.Function][]*ssa.Function{}, impls: map[string][]*ssa.Function{}}
 	var all []*ssa.Function
 	seen := map[*ssa.Function]bool{}
